@@ -138,6 +138,12 @@ def run(ctx):
                     getbad.append((f"{tn}:{n}", r))
             if set(ext[key]) != set(declared):
                 getbad.append((f"{tn}:domain", (sorted(set(declared) ^ set(ext[key]))[:5], "-")))
+        # lookups must not depend on earlier lookups (the exhaustive sweep above is only meaningful for a function of the argument alone)
+        for imp in ext["impure"][:10]:
+            ctx.issue(f"C09:lookup-history:{imp[0]}:{imp[1]}:{imp[2]}", f"{imp[0]}({imp[2]}) asked {imp[1]} answers {imp[3]}, the first sweep answered {imp[4]}: "
+                      "the lookup depends on earlier lookups, so a number can come back with an entry that is not its own",
+                      witness={"function": imp[0], "number": int(imp[2]), "history": imp[1], "answer": imp[3], "first_answer": imp[4]}, found_input=True, kind="oracle")
+        ctx.oblige("oracle:lookup_opcode answers do not depend on earlier lookups (each number twice in a row, descending, after a hit, after a miss)", not ext["impure"])
         for tn, n, impl, ms in bad[:10]:
             ctx.issue(f"correspondence:lookup:{tn}:{n}", "lookup_opcode disagrees with the model (first entry with that opcode)",
                       witness={"table": tn, "number": n, "implementation": impl, "model": ms}, found_input=True, kind="correspondence")
